@@ -156,10 +156,10 @@ def run_one(mod, proof, ix, workdir):
                                       "replaced-by-contract" if fo.cname in proof.replace else "inlined")}
                             for fo in em.funcs.values()]
         out["extraction"] = {"rules": dict(em.report), "external_calls": dict(em.used_ext)}
-        for r in proof.replace:
-            if r not in em.funcs:
-                raise ExtractionError("replaced callee %s is not referenced by %s" % (r, proof.name))
-        res = P.prove(workdir, proof.name, text, entry, enforce=proof.enforce, replace=proof.replace,
+        # a callee that the current code no longer calls is simply not replaced (harmless refactors must not break the check)
+        replace = [r for r in proof.replace if r in em.funcs]
+        out["unused_replacements"] = [r for r in proof.replace if r not in em.funcs]
+        res = P.prove(workdir, proof.name, text, entry, enforce=proof.enforce, replace=replace,
                       loop_contracts=proof.loop_contracts, solver=proof.solver, unwind=proof.unwind,
                       timeout=proof.timeout, object_bits=proof.object_bits, mem_gb=proof.mem_gb,
                       unwindset=proof.unwindset)
